@@ -113,12 +113,17 @@ pub fn policy(rng: &mut Rng, c: &Cfg, flavor: Flavor) -> Policy {
     }
     if roll < inside_hi {
         // inside the envelope
+        // the longest admissible hold depends on the drop budget (few drops
+        // leave room for a long round trip, see oracle::max_hold_for)
+        let max_drops = rng.range(0, (c.retx_max - 1) as u64) as u32;
+        let dmax = crate::oracle::max_hold_for(c, max_drops).unwrap_or(0);
+        let d = if rng.chance(0.5) { rng.range(0, dmax.min(2) as u64) } else { rng.range(0, dmax as u64) } as u32;
         Policy {
             seed,
             p_drop: rng.pick_copy(&[0.02, 0.05, 0.1, 0.2]),
-            p_hold: rng.pick_copy(&[0.0, 0.1, 0.3, 0.5]),
-            d: rng.range(0, (c.retx_threshold - 1) as u64) as u32,
-            max_drops: rng.range(0, (c.retx_max - 1) as u64) as u32,
+            p_hold: rng.pick_copy(&[0.0, 0.1, 0.3, 0.5, 0.9]),
+            d,
+            max_drops,
             blackhole: None,
         }
     } else if roll < heavy_hi {
@@ -127,7 +132,7 @@ pub fn policy(rng: &mut Rng, c: &Cfg, flavor: Flavor) -> Policy {
             seed,
             p_drop: rng.pick_copy(&[0.2, 0.4, 0.7]),
             p_hold: rng.pick_copy(&[0.0, 0.3]),
-            d: rng.range(0, 5) as u32,
+            d: rng.range(0, 9) as u32,
             max_drops: 100_000,
             blackhole: None,
         }
@@ -145,7 +150,51 @@ pub fn policy(rng: &mut Rng, c: &Cfg, flavor: Flavor) -> Policy {
     }
 }
 
+/// Receive buffers beyond the 16-bit window field (>= 128 KiB): a transfer
+/// larger than the buffer, a reader that lags until the window closes and then
+/// drains with reads far below half the buffer.
+fn big_buffer_walk(rng: &mut Rng, flavor: Flavor) -> Scn {
+    let v6 = rng.chance(0.3);
+    let recv_cap = rng.pick_copy(&[131_072usize, 131_073, 196_608, 262_144, 1 << 20]);
+    let c = Cfg {
+        mtu: rng.pick_copy(&[1500u32, 9000, 65_535]),
+        loopback_mtu: 65_536,
+        send_cap: rng.pick_copy(&[65_536usize, 262_144]),
+        recv_cap,
+        retx_threshold: 3,
+        retx_max: 5,
+        v6,
+        loopback: flavor == Flavor::C16 && rng.chance(0.3),
+    };
+    let big_total = (recv_cap.min(262_144) + rng.pick_copy(&[1usize, 40_000, 131_072])).min(400_000);
+    let small_read = rng.pick_copy(&[4096usize, 8192, 16_384, 60_000]);
+    let big = DirSpec {
+        total: big_total,
+        wchunks: vec![rng.pick_copy(&[big_total, 65_536, 10_000])],
+        rbufs: vec![small_read],
+        read_pause: rng.range(1, 3) as u32,
+        peek_every: 0,
+        explicit_shutdown: rng.chance(0.8),
+        try_write: rng.chance(0.3),
+        write_delay: 0,
+        write_pause: 0,
+    };
+    let small = dir(rng, &c, flavor, 60);
+    let (c2s, s2c) = if rng.coin() { (big, small) } else { (small, big) };
+    let p = policy(rng, &c, flavor);
+    Scn {
+        cfg: c,
+        c2s,
+        s2c,
+        sched: Sched::Random(p),
+        order: if rng.chance(0.8) { Order::Emission } else { Order::Shuffle(rng.next_u64() >> 16) },
+    }
+}
+
 pub fn walk(rng: &mut Rng, flavor: Flavor) -> Scn {
+    if rng.below(25) == 0 {
+        return big_buffer_walk(rng, flavor);
+    }
     let c = cfg(rng, flavor);
     let budget = 240;
     let mut c2s = dir(rng, &c, flavor, budget);
@@ -185,6 +234,8 @@ pub fn e2e(rng: &mut Rng, idx: u64) -> E2e {
         d.try_write = false;
     }
     let inside = rng.chance(0.75);
+    let e_drops = if inside { rng.range(0, (c.retx_max - 1) as u64) as u32 } else { 100_000 };
+    let e_dmax = crate::oracle::max_hold_for(&c, e_drops.min(c.retx_max)).unwrap_or(0);
     E2e {
         fixture: if lo { "lo".into() } else { "cs".into() },
         cfg: c.clone(),
@@ -192,8 +243,8 @@ pub fn e2e(rng: &mut Rng, idx: u64) -> E2e {
         s2c,
         seed: rng.next_u64() >> 8,
         p_drop: if lo { 0.0 } else { rng.pick_copy(&[0.0, 0.03, 0.1, 0.3]) },
-        max_drops: if inside { rng.range(0, (c.retx_max - 1) as u64) as u32 } else { 100_000 },
+        max_drops: e_drops,
         p_delay: if lo { 0.0 } else { rng.pick_copy(&[0.0, 0.2, 0.5]) },
-        d_ms: if inside { rng.range(0, (c.retx_threshold - 1) as u64) as u32 } else { rng.range(0, 6) as u32 },
+        d_ms: if inside { rng.range(0, e_dmax as u64) as u32 } else { rng.range(0, 9) as u32 },
     }
 }
